@@ -486,6 +486,64 @@ fn one_history(family: usize, hseed: u64, nops: usize, st: &mut Stats, audit: bo
     }
 }
 
+/// Which tendril types may cross threads is part of "however clones ... are distributed over threads".
+fn check_markers(st: &mut Stats) {
+    // which tendril types may cross threads is part of "however clones ... are distributed over threads":
+    // only atomic tendrils and SendTendrils are Send; nothing is Sync. (Autoref-specialisation probe:
+    // resolves to the Send/Sync-bounded impl when the bound holds, to the fallback otherwise.)
+    {
+        use std::marker::PhantomData;
+        struct Probe<T>(PhantomData<T>);
+        trait Fallback {
+            fn is_send(&self) -> bool {
+                false
+            }
+            fn is_sync(&self) -> bool {
+                false
+            }
+        }
+        impl<T> Fallback for &Probe<T> {}
+        trait WhenSend {
+            fn is_send(&self) -> bool {
+                true
+            }
+        }
+        impl<T: Send> WhenSend for Probe<T> {}
+        trait WhenSync {
+            fn is_sync(&self) -> bool {
+                true
+            }
+        }
+        impl<T: Sync> WhenSync for Probe<T> {}
+        macro_rules! send { ($t:ty) => { (&Probe::<$t>(PhantomData)).is_send() }; }
+        macro_rules! sync { ($t:ty) => { (&Probe::<$t>(PhantomData)).is_sync() }; }
+        let table: Vec<(&str, bool, bool)> = vec![
+            ("Tendril<UTF8, NonAtomic> is Send", send!(Tendril<UTF8, NonAtomic>), false),
+            ("Tendril<Bytes, NonAtomic> is Send", send!(Tendril<Bytes, NonAtomic>), false),
+            ("Tendril<UTF8, Atomic> is Send", send!(Tendril<UTF8, Atomic>), true),
+            ("Tendril<Bytes, Atomic> is Send", send!(Tendril<Bytes, Atomic>), true),
+            ("SendTendril<UTF8> is Send", send!(SendTendril<UTF8>), true),
+            ("Tendril<UTF8, NonAtomic> is Sync", sync!(Tendril<UTF8, NonAtomic>), false),
+            ("Tendril<UTF8, Atomic> is Sync", sync!(Tendril<UTF8, Atomic>), false),
+            // the probe itself: a type that is certainly Send + Sync and one that is certainly neither
+            ("u8 is Send (probe self-test)", send!(u8), true),
+            ("Rc<u8> is Send (probe self-test)", send!(std::rc::Rc<u8>), false),
+            ("u8 is Sync (probe self-test)", sync!(u8), true),
+            ("Cell<u8> is Sync (probe self-test)", sync!(std::cell::Cell<u8>), false),
+        ];
+        for (what, got, want) in table {
+            st.count("thread_safety_markers_checked");
+            if got != want {
+                if what.contains("self-test") {
+                    st.inconclusive(&format!("the Send/Sync probe does not work here: {what} = {got}"));
+                } else {
+                    st.violation("markers", &format!("{what}: {got}, the design says {want} (a tendril whose reference count is not atomic must not cross threads; no tendril may be shared by reference)"), json!({"kind": "markers"}));
+                }
+            }
+        }
+    }
+}
+
 pub fn run(args: &Args) -> (Meta, Stats) {
     let seed = args.seed;
     let sanit = args.tier == Tier::Sanitizer;
@@ -496,6 +554,10 @@ pub fn run(args: &Args) -> (Meta, Stats) {
         let hseed = v["history_seed"].as_str().and_then(|s| s.parse().ok()).unwrap_or(0);
         st.case(Some(1));
         st.distinct.insert(2);
+        if v["kind"] == "markers" {
+            check_markers(&mut st);
+            return (super::meta(args, "replay of the Send/Sync marker probe", &[]), st);
+        }
         if v["kind"] == "huge" {
             super::huge::run_child(&mut st);
             return (super::meta(args, "replay of the 2 GiB-scale length scenarios", &[]), st);
@@ -571,60 +633,7 @@ pub fn run(args: &Args) -> (Meta, Stats) {
         }
     }
     let _ = (nthreads(), par_run::<fn(usize, usize, &mut Stats)>);
-    // which tendril types may cross threads is part of "however clones ... are distributed over threads":
-    // only atomic tendrils and SendTendrils are Send; nothing is Sync. (Autoref-specialisation probe:
-    // resolves to the Send/Sync-bounded impl when the bound holds, to the fallback otherwise.)
-    {
-        use std::marker::PhantomData;
-        struct Probe<T>(PhantomData<T>);
-        trait Fallback {
-            fn is_send(&self) -> bool {
-                false
-            }
-            fn is_sync(&self) -> bool {
-                false
-            }
-        }
-        impl<T> Fallback for &Probe<T> {}
-        trait WhenSend {
-            fn is_send(&self) -> bool {
-                true
-            }
-        }
-        impl<T: Send> WhenSend for Probe<T> {}
-        trait WhenSync {
-            fn is_sync(&self) -> bool {
-                true
-            }
-        }
-        impl<T: Sync> WhenSync for Probe<T> {}
-        macro_rules! send { ($t:ty) => { (&Probe::<$t>(PhantomData)).is_send() }; }
-        macro_rules! sync { ($t:ty) => { (&Probe::<$t>(PhantomData)).is_sync() }; }
-        let table: Vec<(&str, bool, bool)> = vec![
-            ("Tendril<UTF8, NonAtomic> is Send", send!(Tendril<UTF8, NonAtomic>), false),
-            ("Tendril<Bytes, NonAtomic> is Send", send!(Tendril<Bytes, NonAtomic>), false),
-            ("Tendril<UTF8, Atomic> is Send", send!(Tendril<UTF8, Atomic>), true),
-            ("Tendril<Bytes, Atomic> is Send", send!(Tendril<Bytes, Atomic>), true),
-            ("SendTendril<UTF8> is Send", send!(SendTendril<UTF8>), true),
-            ("Tendril<UTF8, NonAtomic> is Sync", sync!(Tendril<UTF8, NonAtomic>), false),
-            ("Tendril<UTF8, Atomic> is Sync", sync!(Tendril<UTF8, Atomic>), false),
-            // the probe itself: a type that is certainly Send + Sync and one that is certainly neither
-            ("u8 is Send (probe self-test)", send!(u8), true),
-            ("Rc<u8> is Send (probe self-test)", send!(std::rc::Rc<u8>), false),
-            ("u8 is Sync (probe self-test)", sync!(u8), true),
-            ("Cell<u8> is Sync (probe self-test)", sync!(std::cell::Cell<u8>), false),
-        ];
-        for (what, got, want) in table {
-            st.count("thread_safety_markers_checked");
-            if got != want {
-                if what.contains("self-test") {
-                    st.inconclusive(&format!("the Send/Sync probe does not work here: {what} = {got}"));
-                } else {
-                    st.violation("markers", &format!("{what}: {got}, the design says {want} (a tendril whose reference count is not atomic must not cross threads; no tendril may be shared by reference)"), json!({"kind": "markers"}));
-                }
-            }
-        }
-    }
+    check_markers(&mut st);
     if !sanit && !cfg!(miri) {
         // wrapped length arithmetic shows up as a wild copy: 2 GiB-scale scenarios in a child process (huge.rs)
         super::huge::run_child(&mut st);
